@@ -40,20 +40,29 @@ SPEC = {
     "extra": [sweep],
     "rule": "real mirrorIPFIX/mirrorSFlow towards random 127/8 targets and ports, captured on a raw IPPROTO_UDP socket and a UDP "
             "listener; payload lengths 0..max biased to max-29..max for max in {64,1500,9000}, random contents and sources in 4- and "
-            "16-octet form; non-trivial = a packet was captured; distinct = distinct case line",
+            "16-octet form; one case in twenty is a stream of 2..12 datagrams (plus floods of 999..2100 of the unserved address "
+            "family) through one worker or the real dispatcher with 0..5 workers in a private network namespace whose loopback MTU "
+            "is set per case (68..65536, lengths around MTU-28; max 65535 for 28+len > 65535); non-trivial = a packet was captured; "
+            "distinct = distinct case line",
     "assumptions": ["Go slice/copy semantics as transcribed in Vflow.Model.Mirror",
-                    "Linux raw-socket (IP_HDRINCL) behaviour: the kernel fills in identification, total length and header checksum",
-                    "IPv4 mirror targets only (the IPv6 branch is outside the model)"],
+                    "Linux raw-socket (IP_HDRINCL) behaviour: the kernel fills in identification, total length and header checksum; "
+                    "sendto refuses (EMSGSIZE) exactly the packets longer than the route's MTU or than 65535 octets (Mirror.linkSend)",
+                    "IPv4 mirror targets only (what an IPv6-target worker emits is outside the model; the dispatcher's liveness is checked there)"],
 }
 META = {
     "text": "Lean theorems over every payload, every IPv4 source in 4- or 16-octet form, every IPv4 target and port and every "
             "maximum with length <= max and 28+length <= 65535: the assembled packet never panics, equals the RFC 791/768 layout "
-            "and parses back to (source, target, port, total length 28+n, UDP length 8+n, payload); buffer size, copy offsets, "
-            "Send bounds and header offsets regenerated from the Go AST; the model is tied to the real mirrorIPFIX/mirrorSFlow by "
-            "capturing the emitted packets byte for byte.",
+            "and parses back to (source, target, port, total length 28+n, UDP length 8+n, payload); over EVERY sequence of "
+            "datagrams up to max and every answer of the kernel's sendto (refusing at least what exceeds 65535 octets): a mirror "
+            "worker never panics and emits, in order, exactly the datagrams of the messages the kernel takes - a refused one costs "
+            "only itself (F25); with the dispatcher in front, for exporters of any address family and any number of datagrams: "
+            "exactly those of the IPv4 exporters, none is queued for a worker that does not exist; buffer size, copy offsets, "
+            "Send bounds, the failed-send branch, the absence of any exit from the worker and dispatcher loops, the dispatch "
+            "switch and header offsets regenerated from the Go AST; the model is tied to the real mirrorIPFIX/mirrorSFlow and the "
+            "real dispatchers by capturing the emitted packets byte for byte, single datagrams and streams on paths of chosen MTU.",
     "ref": "DESIGN.md §6 C16",
-    "note": "Trusted: Lean kernel; hand-written model Vflow.Model.Mirror; the capture hook (raw socket; falls back to the header "
-            "helpers when raw sockets are refused); Linux IP_HDRINCL semantics. Header/UDP checksums are not claimed. "
+    "note": "Trusted: Lean kernel; hand-written model Vflow.Model.Mirror; the capture hook (raw socket, private network namespace; "
+            "falls back to the header helpers when raw sockets or the namespace are refused); Linux IP_HDRINCL / EMSGSIZE semantics. Header/UDP checksums are not claimed. "
             "'never changes what is decoded' rests on the worker copying the datagram before queuing it (C12).",
     "technique": "Lean 4 proof (byte-level refinement to the RFC layout) + go/ast facts + differential capture of real packets",
 }
